@@ -719,21 +719,21 @@ def main(run, shard=(0, 1)) -> None:
     try:
         # replace-all: cycle layouts x static prop versions so that every writer version is exercised
         combos = [(lay, ver) for lay in layouts for ver in G.sprp_versions_for(lay)]
-        n_all = len(combos) * (10 if thorough else 3)
+        n_all = len(combos) * (30 if thorough else 3)
         for k in range(n_all):
             ci += 1
             if mine(ci, shard):
                 lay, ver = combos[k % len(combos)]
                 engine_replace_all(run, run.seed, ci, lay, tmp, ver, lzma=(k % 3 == 0), wide_vis=(k % 17 == 5))
-        for k in range(6000 if thorough else 500):
+        for k in range(20000 if thorough else 500):
             ci += 1
             if mine(ci, shard):
                 engine_single(run, run.seed, ci, layouts[k % len(layouts)], tmp)
-        for k in range(3000 if thorough else 420):
+        for k in range(9000 if thorough else 420):
             ci += 1
             if mine(ci, shard):
                 engine_fit(run, run.seed, ci, layouts[k % len(layouts)], tmp, k)
-        for k in range(40000 if thorough else 2000):
+        for k in range(100000 if thorough else 2000):
             ci += 1
             if mine(ci, shard):
                 engine_rle(run, run.seed, ci)
